@@ -20,13 +20,10 @@ Proof.
   pose proof (c_foll _ _ HI i j Hr N) as (Hj & Hk & Hel & _).
   destruct (e_done (ent s j)) eqn:Hd; [|discriminate].
   destruct (e_err (ent s j)) as [e|] eqn:Herr.
-  - start Hs. Time solve_inv HI.
-    all: idtac "WAKE-ERR REMAINING". Show.
+  - start Hs. solve_inv HI.
   - destruct (e_data (ent s j)) as [[k d]|] eqn:Hdata.
-    + start Hs. Time solve_inv HI.
-      all: idtac "WAKE-DATA REMAINING". Show.
-    + cbn [fix_a fixed] in Hs. start Hs. Time solve_inv HI.
-      all: idtac "WAKE-NONE REMAINING". Show.
+    + start Hs. solve_inv HI.
+    + cbn [fix_a fixed] in Hs. start Hs. solve_inv HI.
 Qed.
 
 Lemma inv_wake_ctx s i s' :
@@ -35,7 +32,6 @@ Proof.
   intros HI He Hs. unfold wake_ctx in Hs.
   destruct (a_pc (act s i)) eqn:Hpc; try discriminate.
   destruct (a_cancel (act s i)) eqn:Hc; [|discriminate]. start Hs.
-  Time solve_inv HI.
-  all: idtac "WAKE-CTX REMAINING". Show.
+  solve_inv HI.
 Qed.
 End S.
